@@ -343,9 +343,15 @@ void RouterSession::checkNudging(const char *when) {
         }
     }
     auto coord = [](Pt p, int dim) { return dim ? p.y : p.x; };
+    bool pinEndsJudged = spec["cfg"].str("style", "").find("staircases") != std::string::npos;
+    if (getenv("ADAPTASIM_DUMP_ROUTES")) for (int i = 0; i < m; i++) { std::string a, b; for (auto &q : raw[i]) a += fmt("(%g,%g)", q.x, q.y); for (auto &q : disp[i]) b += fmt("(%g,%g)", q.x, q.y); fprintf(stderr, "conn %d raw %s displayed %s\n", ids[i], a.c_str(), b.c_str()); }
     for (int i = 0; i < m; i++) for (int j = i + 1; j < m; j++) {
         Cn &ci = conns[ids[i]], &cj = conns[ids[j]];
-        if (ci.e[0].kind != 0 || ci.e[1].kind != 0 || cj.e[0].kind != 0 || cj.e[1].kind != 0) continue;
+        // (the staircase scenes end every connector on a pin of its own little shape; such an end is as fixed as a free point, and its
+        //  position is where the raw route ends)
+        if (pinEndsJudged) for (Cn *cc : {&ci, &cj}) { const std::vector<Pt> &rr = cc == &ci ? raw[i] : raw[j]; if (rr.size() >= 2) for (int ee = 0; ee < 2; ee++) if (cc->e[ee].kind == 1) cc->e[ee].pt = ee ? rr.back() : rr.front(); }
+        auto fixedEnd = [&](const End &e) { return e.kind == 0 || (pinEndsJudged && e.kind == 1); };
+        if (!fixedEnd(ci.e[0]) || !fixedEnd(ci.e[1]) || !fixedEnd(cj.e[0]) || !fixedEnd(cj.e[1])) continue;
         bool common = false;
         for (int a = 0; a < 2; a++) for (int b = 0; b < 2; b++) if (samePt(ci.e[a].pt, cj.e[b].pt)) common = true;
         if (common) continue;
@@ -384,7 +390,43 @@ void RouterSession::checkNudging(const char *when) {
                     }
                 }
                 if (sep < 1e-6) {
-                    if (aEnd && bEnd) continue;        // two end segments cannot be separated (both fixed)
+                    if (aEnd && bEnd) {
+                        // two end segments cannot be separated (both fixed) -- but they must not be MADE to overlap either: when the raw routes
+                        // merely touched there (or did not meet at all) the stretch is the work of nudging, which pushed two bends past each other
+                        if (rawKnown && !rawShared && ci.checkpoints.empty() && cj.checkpoints.empty() && (p == 1 || p == A.size() - 1) && (q == 1 || q == B.size() - 1) && !optNudgeAttached()) {
+                            probe("router.c10-end-segments-overlap-created-by-nudging");
+                            auto rt = [](const std::vector<Pt> &v) { std::string t; for (auto &qq : v) t += fmt("(%g,%g)", qq.x, qq.y); return t; };
+                            // how the two end segments lay in the raw routes: on one line with a gap between them (an interior segment was then shifted
+                            // across the gap, lengthening its connector's end segment), on one line touching end to end, or on different lines
+                            std::string how = ":raw-end-segments-on-different-lines";
+                            { Pt ra0 = raw[i][p - 1], ra1 = raw[i][p], rb0 = raw[j][q - 1], rb1 = raw[j][q];
+                              if (coord(ra0, dim) == coord(ra1, dim) && coord(rb0, dim) == coord(rb1, dim) && coord(ra0, dim) == coord(rb0, dim)) {
+                                  double rlo = std::max(std::min(coord(ra0, o), coord(ra1, o)), std::min(coord(rb0, o), coord(rb1, o))), rhi = std::min(std::max(coord(ra0, o), coord(ra1, o)), std::max(coord(rb0, o), coord(rb1, o)));
+                                  how = rlo - rhi > 1e-9 ? ":raw-end-segments-a-gap-apart" : ":raw-end-segments-touching-end-to-end";
+                                  if (rlo - rhi <= 1e-9) {
+                                      // the touch point is an end point of one of the two connectors (it ends on the other's route), or a bend of both
+                                      Pt T = dim ? Pt{rlo, coord(ra0, dim)} : Pt{coord(ra0, dim), rlo};
+                                      bool endThere = false;
+                                      for (int ee = 0; ee < 2; ee++) if (samePt(ci.e[ee].pt, T) || samePt(cj.e[ee].pt, T)) endThere = true;
+                                      how += endThere ? ":at-an-end-point-of-one-of-them" : ":at-a-bend-of-both";
+                                      if (!endThere) {
+                                          // do the two share a path (of positive length) anywhere in the raw routes?  Separating that path is then what
+                                          // lengthened an end segment; without one the two staircases merely touched
+                                          bool sharePath = false;
+                                          for (size_t u = 1; u < raw[i].size(); u++) for (size_t v = 1; v < raw[j].size(); v++) for (int d2 = 0; d2 < 2; d2++) {
+                                              Pt u0 = raw[i][u - 1], u1 = raw[i][u], v0 = raw[j][v - 1], v1 = raw[j][v]; int o2 = 1 - d2;
+                                              if (!(coord(u0, d2) == coord(u1, d2) && coord(v0, d2) == coord(v1, d2) && coord(u0, d2) == coord(v0, d2))) continue;
+                                              double l2 = std::max(std::min(coord(u0, o2), coord(u1, o2)), std::min(coord(v0, o2), coord(v1, o2))), h2 = std::min(std::max(coord(u0, o2), coord(u1, o2)), std::max(coord(v0, o2), coord(v1, o2)));
+                                              if (h2 - l2 > 1e-9) sharePath = true;
+                                          }
+                                          how += sharePath ? ":the-two-share-a-path-elsewhere" : ":the-two-only-touch";
+                                      }
+                                  }
+                              } }
+                            violate("C10", "separated", "collinear-overlap-created-between-two-end-segments" + how, fmt("conns %d,%d overlap on %c=%g over %g (nudging distance %g) after %s; raw %s | %s; displayed %s | %s;%s", ids[i], ids[j], dim ? 'y' : 'x', coord(a0, dim), hi - lo, nd, when, rt(raw[i]).c_str(), rt(raw[j]).c_str(), rt(A).c_str(), rt(B).c_str(), describeScene().c_str()));
+                        }
+                        continue;
+                    }
                     double c0 = coord(a0, dim);
                     auto wide = [&](Pt s0, Pt s1) {
                         // free channel around the WHOLE interior segment, on both sides
@@ -433,7 +475,9 @@ void RouterSession::checkNudging(const char *when) {
                             bool third = false;
                             for (int t = 0; t < m && !third; t++) if (t != i && t != j) for (int ee = 0; ee < 2; ee++) {
                                 Pt q = conns[ids[t]].e[ee].pt;
-                                if (conns[ids[t]].e[ee].kind == 0 && std::fabs(coord(q, dim) - c0) < 2e-6 && coord(q, o) >= lo - 1e-9 && coord(q, o) <= hi + 1e-9) third = true;      // same tolerance as "collinear"
+                                // (anywhere along either of the two segments, not only where they overlap: the third connector's end segment runs from there)
+                                double ulo = std::min(std::min(coord(a0, o), coord(a1, o)), std::min(coord(b0, o), coord(b1, o))), uhi = std::max(std::max(coord(a0, o), coord(a1, o)), std::max(coord(b0, o), coord(b1, o)));
+                                if (conns[ids[t]].e[ee].kind == 0 && std::fabs(coord(q, dim) - c0) < 2e-6 && coord(q, o) >= ulo - 1e-9 && coord(q, o) <= uhi + 1e-9) third = true;      // same tolerance as "collinear"
                                 // ... or on the stretch the two shared in their raw routes (with end segments nudgeable the whole bundle, the
                                 // third connector's end segment included, may since have been shifted as one: x=230 -> 230.871)
                                 if (conns[ids[t]].e[ee].kind == 0 && rawShared && std::fabs(coord(q, dim) - rawC) < 2e-6 && coord(q, o) >= rawLo - 1e-9 && coord(q, o) <= rawHi + 1e-9) third = true;
@@ -625,6 +669,62 @@ static Json genNudgeSession(Rng &r, const std::string &tier) {
     cfg.set("style", "ortho+nudging");
     s.set("cfg", cfg);
     Json ops = Json::arr();
+    {
+        // swarm member "staircases" (side stream: every other scene stays as it was): 2-4 connectors whose routes are staircases
+        // that merely TOUCH -- the lower end of one stands on the column of the upper end of the next, all bend on the one horizontal
+        // line an obstacle to the side provides -- with direction-restricted free ends.  Whether touching collinear segments share a
+        // channel depends on nudgeOrthogonalTouchingColinearSegments / fixedSharedPathPenalty; which way the rank at the touch point
+        // falls depends on connector ids, route direction and the orientation of the whole scene, all drawn.
+        Rng r2(Rng::mix(r.s, "staircases"));
+        if (r2.chance(0.06)) {
+            double nd2 = (double)r2.range(2, 8); params.set("7", nd2);
+            if (r2.chance(0.35)) params.set("4", 110.0);
+            options.set("3", r2.chance(0.7)); options.set("0", false);
+            cfg.set("params", params); cfg.set("options", options); cfg.set("style", "ortho+nudging+staircases"); s.set("cfg", cfg);
+            bool swapXY = r2.chance(0.5), flipX = r2.chance(0.5), flipY = r2.chance(0.5);
+            auto T = [&](double x, double y) { if (flipX) x = 600 - x; if (flipY) y = 400 - y; return swapXY ? Pt{y, x} : Pt{x, y}; };
+            auto D = [&](unsigned d) {        // ConnDirUp 1, Down 2, Left 4, Right 8
+                if (flipY) d = ((d & 1) ? 2 : 0) | ((d & 2) ? 1 : 0) | (d & 12);
+                if (flipX) d = ((d & 4) ? 8 : 0) | ((d & 8) ? 4 : 0) | (d & 3);
+                if (swapXY) d = ((d & 1) ? 4 : 0) | ((d & 2) ? 8 : 0) | ((d & 4) ? 1 : 0) | ((d & 8) ? 2 : 0);
+                return d;
+            };
+            int k = r2.range(2, 4); double dx = 10.0 * r2.range(6, 12), H = 10.0 * r2.range(16, 24), yb = 10.0 * r2.range(6, (int)(H / 10) - 6);
+            // the obstacle whose upper side gives the common bend line y = yb, well to the side of all staircases
+            { Pt a = T(dx * (k + 1) + 150, yb), b = T(dx * (k + 1) + 210, yb + 60);
+              RectB c{std::min(a.x, b.x), std::min(a.y, b.y), std::fabs(a.x - b.x), std::fabs(a.y - b.y)};
+              Json o = Json::obj(); o.set("op", "addShape"); o.set("id", 0); Json pj = Json::arr(); for (auto &q : rectPoly(c)) pj.push(ptJ(q)); o.set("poly", pj); o.set("rect", true); ops.push(o); }
+            // free end points do not do: the router lets a direction-restricted free end leave sideways along other end points'
+            // visibility lines.  As in an editor, every end is a pin on its own little shape: upper shapes with a pin in the middle of
+            // their lower side (ConnDirDown), lower shapes with a pin in the middle of their upper side (ConnDirUp).
+            int sid2 = 1;
+            auto capShape = [&](double X, double y0, double y1, double py, unsigned dir) {
+                Pt a = T(X - 20, y0), b = T(X + 20, y1), pp = T(X, py);
+                RectB c{std::min(a.x, b.x), std::min(a.y, b.y), std::fabs(a.x - b.x), std::fabs(a.y - b.y)};
+                Json o = Json::obj(); o.set("op", "addShape"); o.set("id", sid2); Json pj = Json::arr(); for (auto &q : rectPoly(c)) pj.push(ptJ(q)); o.set("poly", pj); o.set("rect", true);
+                Json pins = Json::arr(); Json pin = Json::obj(); pin.set("cls", 1); pin.set("x", (pp.x - c.x) / c.w); pin.set("y", (pp.y - c.y) / c.h); pin.set("prop", true); pin.set("inside", 0.0); pin.set("dirs", (long)D(dir)); pin.set("excl", true);
+                pins.push(pin); o.set("pins", pins); ops.push(o);
+                return sid2++;
+            };
+            std::vector<int> topShape((size_t)k), botShape((size_t)k);
+            for (int i = 0; i < k; i++) { topShape[(size_t)i] = capShape(dx * (i + 1), -40, 0, 0, 2); botShape[(size_t)i] = capShape(dx * (i + 2), H, H + 40, H, 1); }
+            std::vector<int> order; for (int i = 0; i < k; i++) order.push_back(i);
+            for (int i = k - 1; i > 0; i--) std::swap(order[(size_t)i], order[r2.below((uint64_t)i + 1)]);
+            // connector ids decide which of two touching connectors the crossing code treats first: drawn, not tied to creation order
+            std::vector<int> cids; for (int i = 0; i < k; i++) cids.push_back(i);
+            for (int i = k - 1; i > 0; i--) std::swap(cids[(size_t)i], cids[r2.below((uint64_t)i + 1)]);
+            for (int i : order) {
+                bool rev = r2.chance(0.5);
+                Json ea = Json::obj(); ea.set("shape", topShape[(size_t)i]); ea.set("cls", 1);
+                Json eb = Json::obj(); eb.set("shape", botShape[(size_t)i]); eb.set("cls", 1);
+                Json o = Json::obj(); o.set("op", "addConn"); o.set("id", cids[(size_t)i]); o.set("src", rev ? eb : ea); o.set("dst", rev ? ea : eb); o.set("ctor", (long)r2.below(2));
+                ops.push(o);
+            }
+            { Json o = Json::obj(); o.set("op", "process"); ops.push(o); }
+            s.set("ops", ops);
+            return s;
+        }
+    }
     if (r.chance(0.12)) {
         // swarm member "doors": a wall with a door far too narrow for the connectors that must pass it (their separation gets
         // reduced, possibly to nothing -- legitimate) and a door many times wider than needed, where the property does demand
